@@ -96,6 +96,8 @@ qb_hdb_handle_create(struct qb_hdb *hdb, int32_t instance_size,
 
 	instance = malloc(instance_size);
 	if (instance == 0) {
+		/* the slot stays empty: nothing refers to it */
+		entry->ref_count = 0;
 		return -ENOMEM;
 	}
 
@@ -179,6 +181,7 @@ qb_hdb_handle_put(struct qb_hdb * hdb, qb_handle_t handle_in)
 	}
 
 	if (qb_array_index(hdb->handles, handle, (void **)&entry) != 0 ||
+	    entry->state == QB_HDB_HANDLE_STATE_EMPTY ||
 	    (check != (int32_t) UINT32_MAX && check != entry->check)) {
 		return (-EBADF);
 	}
@@ -245,6 +248,7 @@ qb_hdb_handle_refcount_get(struct qb_hdb * hdb, qb_handle_t handle_in)
 	}
 
 	if (qb_array_index(hdb->handles, handle, (void **)&entry) != 0 ||
+	    entry->state == QB_HDB_HANDLE_STATE_EMPTY ||
 	    (check != (int32_t) UINT32_MAX && check != entry->check)) {
 		return (-EBADF);
 	}
